@@ -10,6 +10,12 @@ Three classes of strings, decided by the independent grammar: `Spec.fenStrict s 
 adjacent digits, repeated/unordered castling letters, trailing fields, en-passant rank not matching
 the side), and `Spec.fenLoose s = none` (malformed beyond doubt). All theorems quantify over EVERY
 string.
+
+Beyond the grammar the reader checks the position itself: possible material (one king each, at most
+eight pawns with promoted pieces covered by missing pawns, no pawn on the first/eighth rank), every
+castling right backed by king and rook on their home squares, an en-passant square backed by the
+enemy pawn that has just made its double step (`rights_and_en_passant_are_checked`). Hence every
+accepted text yields a well-formed game (`accepted_is_well_formed`), with no side condition.
 -/
 namespace Chess.Props.C17
 open Chess
@@ -30,23 +36,41 @@ theorem accepted_is_faithful {s : List Char} {g : Game} (h : Game.ofFen s = .ok 
     Spec.fenLoose s = some g.abs ∧ g.CacheInv ∧ g.resScore = 0 ∧ g.KingInv :=
   ⟨ofFen_sound h, (ofFen_wf_cache h).1, (ofFen_wf_cache h).2.1, (ofFen_wf_rest h).1⟩
 
-theorem accepted_hash_is_the_positions {s : List Char} {g : Game} (h : Game.ofFen s = .ok g)
-    (hr : g.RightsInv) (he : g.EpInv) : g.hash = Spec.zobrist g.abs :=
-  wf_hash_eq_spec (reach_wf (Reach.imported s g h hr he))
+theorem accepted_hash_is_the_positions {s : List Char} {g : Game} (h : Game.ofFen s = .ok g) :
+    g.hash = Spec.zobrist g.abs :=
+  wf_hash_eq_spec (reach_wf (Reach.imported s g h))
 
 /-- **C17.4** Every well-formed FEN of a board with possible material (one king each, at most eight
-pawns, promoted pieces covered by missing pawns, no pawn on the first/eighth rank) is accepted,
-as the position it describes. -/
+pawns, promoted pieces covered by missing pawns, no pawn on the first/eighth rank) whose castling
+rights and en-passant square are backed by the board is accepted, as the position it describes. -/
 theorem wellformed_is_accepted {s : List Char} {a : Spec.APos} (h : Spec.fenStrict s = some a)
-    (hm : MaterialOKBoard a.board) : ∃ g, Game.ofFen s = .ok g ∧ g.abs = a :=
-  ofFen_complete h hm
+    (hm : MaterialOKBoard a.board) (hr : RightsOkBoard a) (he : EpOkBoard a) :
+    ∃ g, Game.ofFen s = .ok g ∧ g.abs = a :=
+  ofFen_complete h hm hr he
 
-/-- What the reader does NOT check (kept visible): castling rights against the board. The text
-`4k3/8/8/8/8/8/8/4K3 w K -` is accepted with the right set and h1 empty, so `RightsInv` is a
-hypothesis of the reachable-game theorems, not a consequence of import. -/
-theorem rights_are_not_checked :
-    ∃ g, Game.ofFen rightsWitness = .ok g ∧ g.top.wk = true ∧ g.get ⟨0, 7⟩ = none ∧ ¬ g.RightsInv :=
-  ofFen_rights_not_checked
+/-- …in particular every well-formed FEN of a position the rules call sane. -/
+theorem wellformed_sane_is_accepted {s : List Char} {a : Spec.APos}
+    (h : Spec.fenStrict s = some a) (hs : Spec.sane a = true) :
+    ∃ g, Game.ofFen s = .ok g ∧ g.abs = a :=
+  ofFen_complete_of_sane h hs
+
+/-- **C17.5** The reader checks castling rights and the en-passant square against the board: every
+accepted game has each recorded right backed by rook and (cached) king on their home squares, and a
+recorded en-passant file backed by the enemy pawn that has just made its double step. -/
+theorem rights_and_en_passant_are_checked {s : List Char} {g : Game} (h : Game.ofFen s = .ok g) :
+    g.RightsInv ∧ g.EpInv :=
+  ⟨ofFen_rightsInv h, ofFen_epInv h⟩
+
+/-- Hence every accepted text yields a game satisfying the full representation invariant. -/
+theorem accepted_is_well_formed {s : List Char} {g : Game} (h : Game.ofFen s = .ok g) : g.WF :=
+  ofFen_wf h
+
+/-- The checks bite: `4k3/8/8/8/8/8/8/4K3 w K -` (right set, h1 empty) and
+`4k3/8/8/8/8/8/8/4K3 w - e6` (en-passant square, no pawn on e5) are refused. -/
+theorem unbacked_rights_are_refused :
+    Game.ofFen rightsWitness = .refused "Castling rights do not match the board"
+    ∧ Game.ofFen epWitness = .refused "En passant square does not match the board" :=
+  ⟨ofFen_rights_checked_example, ofFen_ep_checked_example⟩
 
 end Chess.Props.C17
 
@@ -55,4 +79,7 @@ end Chess.Props.C17
 #print axioms Chess.Props.C17.accepted_is_faithful
 #print axioms Chess.Props.C17.accepted_hash_is_the_positions
 #print axioms Chess.Props.C17.wellformed_is_accepted
-#print axioms Chess.Props.C17.rights_are_not_checked
+#print axioms Chess.Props.C17.wellformed_sane_is_accepted
+#print axioms Chess.Props.C17.rights_and_en_passant_are_checked
+#print axioms Chess.Props.C17.accepted_is_well_formed
+#print axioms Chess.Props.C17.unbacked_rights_are_refused
